@@ -7,7 +7,9 @@
      dict it builds is the chunk table (keys = Mux.table, values = the registers touching the chunk);
    - sorted() of ANY enumeration of a set whose elements are strictly ordered is that order (a Python set has
      no order of its own: this is the order-independence the translation needs);
-   - the model's shadow size does not depend on the order of the register list (Permutation). *)
+   - the model's shadow size does not depend on the order of the register list (Permutation);
+   - `sites`: the (chunk, bus address, register, word, strobe) tuples elaborate() wires, read off the chunk table,
+     and their relation to the per-cycle functions of the model (wen, ren_next, elem_rstb, wstb_next). *)
 From Coq Require Import ZArith List Bool Lia ZifyBool Permutation Sorted.
 From Soc Require Import Lib.Bits Lib.Res Lib.PyShadow Model.Mux Model.MuxSpec Proofs.ShadowHash Proofs.MuxTable
   Proofs.MuxPrepare.
@@ -663,4 +665,109 @@ Proof.
   apply StronglySorted_inv in H. destruct H as [H1 H2]. cbn. constructor; [|apply IH; exact H1].
   intros Hin. apply in_map_iff in Hin. destruct Hin as (r' & E & Hr'). rewrite Forall_forall in H2.
   specialize (H2 r' Hr'). unfold rng_of in E. inversion E. lia.
+Qed.
+
+(* ------------------------------------------------------------------ what elaborate() wires, read off the chunk table *)
+(* one entry per (chunk, register using it): the bus address of the Case, the register (by its start address), the
+   word of the register that the chunk holds, and whether the element strobe is raised in this Case *)
+Record site := mk_site { st_chunk : Z; st_addr : Z; st_reg : Z; st_word : Z; st_strobe : bool }.
+
+Definition sites_of (strobe_at : rng -> Z) (d : ddict rng) : list site :=
+  flat_map (fun p => map (fun x => let ca := encode (mkreg x) (fst p) in
+                                   mk_site (fst p) ca (rstart x) (ca - rstart x) (ca =? strobe_at x)) (snd p)) d.
+Definition rsites (S : Z) (regs : list reg) : list site := sites_of rstart (chunk_dict S regs).
+Definition wsites (S : Z) (regs : list reg) : list site := sites_of (fun x => rstop x - 1) (chunk_dict S regs).
+
+Lemma sites_In f S regs s : In s (sites_of f (chunk_dict S regs)) <->
+  exists o r, In r regs /\ touches S r o = true /\
+              s = mk_site o (encode r o) (r_start r) (encode r o - r_start r) (encode r o =? f (rng_of r)).
+Proof.
+  unfold sites_of, chunk_dict. rewrite in_flat_map. split.
+  - intros ([o l] & Hp & Hs). apply in_map_iff in Hp. destruct Hp as (o' & E & Ho). inversion E; subst o' l. clear E.
+    cbn [fst snd] in Hs. rewrite map_map in Hs. apply in_map_iff in Hs. destruct Hs as (r & <- & Hr).
+    rewrite chunk_regs_filter in Hr. apply filter_In in Hr. destruct Hr as [Hr Ht].
+    exists o, r. split; [exact Hr|]. split; [exact Ht|]. reflexivity.
+  - intros (o & r & Hr & Ht & ->). exists (o, map rng_of (chunk_regs S regs o)). split.
+    + apply in_map_iff. exists o. split; [reflexivity|]. apply table_In.
+      apply touches_spec in Ht. destruct Ht as (a & Ha & E). exists r, a. auto.
+    + cbn [fst snd]. rewrite map_map. apply in_map_iff. exists r. split; [reflexivity|].
+      rewrite chunk_regs_filter. apply filter_In. auto.
+Qed.
+
+Lemma site_word_spec f d s : In s (sites_of f d) -> st_word s = st_addr s - st_reg s.
+Proof.
+  unfold sites_of. rewrite in_flat_map. intros (p & _ & H). apply in_map_iff in H. destruct H as (x & <- & _). reflexivity.
+Qed.
+
+(* the Case addresses of write chunk o are the addresses at which the model enables the chunk *)
+Theorem wen_sites c i o :
+  wen c i o = i_wstb i && existsb (fun s => (st_chunk s =? o) && (i_addr i =? st_addr s)) (wsites (c_Sw c) (wregs c)).
+Proof.
+  unfold wen. f_equal. apply eq_iff_eq_true. rewrite !existsb_exists. split.
+  - intros (r & Hr & H). apply andb_prop in H. destruct H as [Ht Ha].
+    eexists. split; [apply sites_In; exists o, r; split; [exact Hr|split; [exact Ht|reflexivity]]|].
+    cbn. rewrite Z.eqb_refl. exact Ha.
+  - intros (s & Hs & H). apply sites_In in Hs. destruct Hs as (o' & r & Hr & Ht & ->). cbn in H.
+    apply andb_prop in H. destruct H as [Ho Ha]. apply Z.eqb_eq in Ho. subst o'.
+    exists r. split; [exact Hr|]. rewrite Ht. exact Ha.
+Qed.
+
+Theorem ren_sites c i o :
+  ren_next c i o = if i_rstb i && existsb (fun s => (st_chunk s =? o) && (i_addr i =? st_addr s)) (rsites (c_Sr c) (rregs c))
+                   then 1 else 0.
+Proof.
+  unfold ren_next.
+  replace (existsb (fun r => touches (c_Sr c) r o && (i_addr i =? encode r o)) (rregs c))
+    with (existsb (fun s => (st_chunk s =? o) && (i_addr i =? st_addr s)) (rsites (c_Sr c) (rregs c))); [reflexivity|].
+  apply eq_iff_eq_true. rewrite !existsb_exists. split.
+  - intros (s & Hs & H). apply sites_In in Hs. destruct Hs as (o' & r & Hr & Ht & ->). cbn in H.
+    apply andb_prop in H. destruct H as [Ho Ha]. apply Z.eqb_eq in Ho. subst o'.
+    exists r. split; [exact Hr|]. rewrite Ht. exact Ha.
+  - intros (r & Hr & H). apply andb_prop in H. destruct H as [Ht Ha].
+    eexists. split; [apply sites_In; exists o, r; split; [exact Hr|split; [exact Ht|reflexivity]]|].
+    cbn. rewrite Z.eqb_refl. exact Ha.
+Qed.
+
+Lemma ascending_start_inj regs r r' : ascending regs -> In r regs -> In r' regs -> r_start r = r_start r' -> r = r'.
+Proof.
+  unfold ascending. induction regs as [|x regs IH]; intros H Hr Hr' E; [contradiction|].
+  apply StronglySorted_inv in H. destruct H as [H1 H2]. rewrite Forall_forall in H2.
+  destruct Hr as [->|Hr]; destruct Hr' as [->|Hr']; auto.
+  - specialize (H2 _ Hr'). lia.
+  - specialize (H2 _ Hr). lia.
+Qed.
+
+Lemma size_ok_encode_decode S regs r a : size_ok S regs -> In r regs -> r_start r <= a < r_stop r ->
+  touches S r (decode S r a) = true /\ encode r (decode S r a) = a.
+Proof.
+  intros (s & -> & Hs & Hall) Hr Ha. split.
+  - apply touches_spec. exists a. auto.
+  - apply encode_decode; [apply Hall; exact Hr|unfold reg_len; lia|exact Ha].
+Qed.
+
+(* element.r_stb of a readable register is raised exactly in the Case whose address is the register's first address *)
+Theorem rstb_sites S regs i r : size_ok S regs -> In r regs -> 0 < reg_len r ->
+  elem_rstb i r = r_rd r && i_rstb i &&
+                  existsb (fun s => st_strobe s && (st_reg s =? r_start r) && (i_addr i =? st_addr s)) (rsites S regs).
+Proof.
+  intros Hok Hr Hl. unfold elem_rstb. f_equal. apply eq_iff_eq_true. rewrite existsb_exists, Z.eqb_eq. split.
+  - intros E. destruct (size_ok_encode_decode S regs r (r_start r) Hok Hr) as [Ht He]; [unfold reg_len in Hl; lia|].
+    eexists. split; [apply sites_In; exists (decode S r (r_start r)), r; split; [exact Hr|split; [exact Ht|reflexivity]]|].
+    cbn. rewrite He. unfold rstart. cbn. rewrite !Z.eqb_refl. cbn. lia.
+  - intros (s & Hs & H). apply sites_In in Hs. destruct Hs as (o & r' & Hr' & Ht & ->). cbn in H.
+    unfold rstart in H. cbn in H. lia.
+Qed.
+
+(* element.w_stb of a writable register is raised exactly in the Case whose address is the register's last address *)
+Theorem wstb_sites S regs i r : size_ok S regs -> ascending regs -> In r regs -> 0 < reg_len r ->
+  wstb_next i r = r_wr r && i_wstb i &&
+                  existsb (fun s => st_strobe s && (st_reg s =? r_start r) && (i_addr i =? st_addr s)) (wsites S regs).
+Proof.
+  intros Hok Hasc Hr Hl. unfold wstb_next. f_equal. apply eq_iff_eq_true. rewrite existsb_exists, Z.eqb_eq. split.
+  - intros E. destruct (size_ok_encode_decode S regs r (r_stop r - 1) Hok Hr) as [Ht He]; [unfold reg_len in Hl; lia|].
+    eexists. split; [apply sites_In; exists (decode S r (r_stop r - 1)), r; split; [exact Hr|split; [exact Ht|reflexivity]]|].
+    cbn. rewrite He. unfold rstop. cbn. rewrite !Z.eqb_refl. cbn. lia.
+  - intros (s & Hs & H). apply sites_In in Hs. destruct Hs as (o & r' & Hr' & Ht & ->). cbn in H.
+    unfold rstop in H. cbn in H.
+    assert (r' = r) by (apply (ascending_start_inj regs); auto; lia). subst r'. lia.
 Qed.
